@@ -2,6 +2,7 @@
    order of struct fields; with Nested_order: from_samples is order independent on nested data. *)
 From Verif Require Import Tracer Coerce Coerce_proofs Null_proofs Struct_proofs Project_proofs FlatRecords_proofs Nested_order FromType_proofs Sort_proofs.
 From Coq Require Import Permutation.
+Require Import Lia.
 Local Open Scope nat_scope.
 
 (* the first field called k of a schema struct *)
@@ -17,7 +18,10 @@ with sdeq : SDT -> SDT -> Prop :=
 | sdeq_struct fs fs' :
     (forall k, sget k fs = None <-> sget k fs' = None) ->
     (forall k f f', sget k fs = Some f -> sget k fs' = Some f' -> sfeq f f') ->
-    sdeq (SStruct fs) (SStruct fs').
+    sdeq (SStruct fs) (SStruct fs')
+| sdeq_map kf kf' vf vf' : sfeq kf kf' -> sfeq vf vf' -> sdeq (SMap kf vf) (SMap kf' vf')
+| sdeq_positional fs fs' : Forall2 sfeq fs fs' -> sdeq (SStruct fs) (SStruct fs')
+| sdeq_union fs fs' : Forall2 sfeq fs fs' -> sdeq (SUnion fs) (SUnion fs').
 
 Section Lift.
   Variable o : Opts.
@@ -59,10 +63,74 @@ Section Lift.
     to_field o [] name path (TStruct n false s trs) = do fs <- tf_struct o path trs ;; Ok (mkSF name (SStruct fs) n None).
   Proof. reflexivity. Qed.
 
+  (* tuple positions and enum variants: position by position *)
+  Lemma tf_tuple_pointwise : forall trs trs' i path path' l l', length trs = length trs' ->
+    (forall k name p p' f f', to_field o [] name p (nth_tracer trs k) = Ok f -> to_field o [] name p' (nth_tracer trs' k) = Ok f' -> sfeq f f') ->
+    tf_tuple o path i trs = Ok l -> tf_tuple o path' i trs' = Ok l' -> Forall2 sfeq l l'.
+  Proof.
+    induction trs as [|t r IH]; intros trs' i path path' l l' Hlen Hpt H1 H2; destruct trs' as [|t' r']; try discriminate Hlen.
+    - cbn [tf_tuple] in H1, H2. injection H1 as <-. injection H2 as <-. constructor.
+    - cbn [tf_tuple] in H1, H2. fold (tf_tuple o path) in H1. fold (tf_tuple o path') in H2.
+      apply bind_ok in H1 as (f & Hf & H1). apply bind_ok in H1 as (rest & Hr & H1). injection H1 as <-.
+      apply bind_ok in H2 as (f' & Hf' & H2). apply bind_ok in H2 as (rest' & Hr' & H2). injection H2 as <-.
+      constructor; [apply (Hpt 0 _ _ _ f f' Hf Hf')|].
+      apply (IH r' (N.succ i) path path' rest rest'); [cbn [length] in Hlen; lia| |exact Hr|exact Hr'].
+      intros k. apply (Hpt (S k)).
+  Qed.
+
+  Lemma teq_null_variant t t' : teq t t' -> is_null_variant t = is_null_variant t'.
+  Proof. intros H. destruct H; reflexivity. Qed.
+
+  Lemma sfeq_unknown_variant : sfeq unknown_variant_field unknown_variant_field.
+  Proof. repeat constructor. Qed.
+
+  Lemma tf_union_pointwise : forall vs vs' path path' l l', length vs = length vs' ->
+    (forall i, get_variant vs i = None <-> get_variant vs' i = None) ->
+    (forall i nm t nm' t', get_variant vs i = Some (nm, t) -> get_variant vs' i = Some (nm', t') -> nm = nm') ->
+    (forall i nm t nm' t', get_variant vs i = Some (nm, t) -> get_variant vs' i = Some (nm', t') ->
+        forall name p p' f f', to_field o [] name p t = Ok f -> to_field o [] name p' t' = Ok f' -> sfeq f f') ->
+    tf_union o path vs = Ok l -> tf_union o path' vs' = Ok l' -> Forall2 sfeq l l'.
+  Proof.
+    induction vs as [|v r IH]; intros vs' path path' l l' Hlen Hnone Hnm Hpt H1 H2; destruct vs' as [|v' r']; try discriminate Hlen.
+    - cbn [tf_union] in H1, H2. injection H1 as <-. injection H2 as <-. constructor.
+    - pose proof (Hnone 0) as Hn0. cbn [get_variant] in Hn0.
+      assert (IHr : forall rest rest', tf_union o path r = Ok rest -> tf_union o path' r' = Ok rest' -> Forall2 sfeq rest rest').
+      { intros rest rest' Hr Hr'. apply (IH r' path path' rest rest'); [cbn [length] in Hlen; lia| | | |exact Hr|exact Hr'].
+        - intros i. apply (Hnone (S i)).
+        - intros i. apply (Hnm (S i)).
+        - intros i. apply (Hpt (S i)). }
+      cbn [tf_union] in H1, H2. fold (tf_union o path) in H1. fold (tf_union o path') in H2.
+      destruct v as [[nm t]|], v' as [[nm' t']|].
+      + apply bind_ok in H1 as (f & Hf & H1). apply bind_ok in H1 as (rest & Hr & H1). injection H1 as <-.
+        apply bind_ok in H2 as (f' & Hf' & H2). apply bind_ok in H2 as (rest' & Hr' & H2). injection H2 as <-.
+        pose proof (Hnm 0 nm t nm' t' eq_refl eq_refl) as <-.
+        constructor; [apply (Hpt 0 nm t nm t' eq_refl eq_refl _ _ _ f f' Hf Hf')|apply (IHr _ _ Hr Hr')].
+      + destruct Hn0 as [_ Hx]. specialize (Hx eq_refl). discriminate.
+      + destruct Hn0 as [Hx _]. specialize (Hx eq_refl). discriminate.
+      + apply bind_ok in H1 as (rest & Hr & H1). injection H1 as <-. apply bind_ok in H2 as (rest' & Hr' & H2). injection H2 as <-.
+        constructor; [apply sfeq_unknown_variant|apply (IHr _ _ Hr Hr')].
+  Qed.
+
+  Lemma without_data_pointwise : forall vs vs', length vs = length vs' ->
+    (forall i, get_variant vs i = None <-> get_variant vs' i = None) ->
+    (forall i nm t nm' t', get_variant vs i = Some (nm, t) -> get_variant vs' i = Some (nm', t') -> is_null_variant t = is_null_variant t') ->
+    forallb (fun v : option (bytes * Tracer) => match v with Some (_, vt) => is_null_variant vt | None => false end) vs =
+    forallb (fun v : option (bytes * Tracer) => match v with Some (_, vt) => is_null_variant vt | None => false end) vs'.
+  Proof.
+    induction vs as [|v r IH]; intros vs' Hlen Hnone Hnv; destruct vs' as [|v' r']; try discriminate Hlen; [reflexivity|].
+    cbn [forallb]. pose proof (Hnone 0) as Hn0. cbn [get_variant] in Hn0.
+    rewrite (IH r'); [|cbn [length] in Hlen; lia|intros i; apply (Hnone (S i))|intros i; apply (Hnv (S i))].
+    destruct v as [[nm t]|], v' as [[nm' t']|].
+    - rewrite (Hnv 0 nm t nm' t' eq_refl eq_refl). reflexivity.
+    - destruct Hn0 as [_ Hx]. specialize (Hx eq_refl). discriminate.
+    - destruct Hn0 as [Hx _]. specialize (Hx eq_refl). discriminate.
+    - reflexivity.
+  Qed.
+
   Theorem to_field_teq : forall t t', teq t t' -> forall name path path' f f',
     to_field o [] name path t = Ok f -> to_field o [] name path' t' = Ok f' -> sfeq f f'.
   Proof.
-    induction 1 as [n|n p|n i i' Hi IH|n s s' fs fs' Hnone Hsome IH|n s s' fs fs' Hnone Hsome IH]; intros name path path' f f' H1 H2.
+    induction 1 as [n|n p|n i i' Hi IH|n s s' fs fs' Hnone Hsome IH|n s s' fs fs' Hnone Hsome IH|n kt kt' vt vt' Hk IHk Hv IHv|n fs fs' Hlen Hpt IH|n vs vs' Hlen Hnone Hnm Hpt IH]; intros name path path' f f' H1 H2.
     - cbn [to_field get_overwrite find option_map] in H1, H2. destruct (o_allow_null o); [|discriminate]. injection H1 as <-. injection H2 as <-. repeat constructor.
     - cbn [to_field get_overwrite find option_map] in H1, H2. destruct p; try (injection H1 as <-; injection H2 as <-; repeat constructor).
       + destruct (o_allow_null o); [|discriminate]. injection H1 as <-. injection H2 as <-. repeat constructor.
@@ -95,6 +163,20 @@ Section Lift.
         destruct (fget2 k fs') as [[t2 l2]|] eqn:E2; [|rewrite B in Gb; discriminate].
         destruct A as (fa' & Ea & Ta). destruct B as (fb' & Eb & Tb). rewrite Ea in Ga. rewrite Eb in Gb. injection Ga as <-. injection Gb as <-.
         apply (IH k t1 l1 t2 l2 E1 E2 _ _ _ _ _ Ta Tb).
+    - cbn [to_field get_overwrite find option_map] in H1, H2. apply bind_ok in H1 as (x & Hx & H1). apply bind_ok in H1 as (y & Hy & H1).
+      apply bind_ok in H2 as (x' & Hx' & H2). apply bind_ok in H2 as (y' & Hy' & H2). injection H1 as <-. injection H2 as <-.
+      constructor. constructor; [apply (IHk _ _ _ x x' Hx Hx')|apply (IHv _ _ _ y y' Hy Hy')].
+    - rewrite to_field_tuple in H1, H2. apply bind_ok in H1 as (l & Hl & H1). apply bind_ok in H2 as (l' & Hl' & H2).
+      injection H1 as <-. injection H2 as <-. constructor. apply sdeq_positional.
+      apply (tf_tuple_pointwise fs fs' 0%N path path' l l' Hlen); [|exact Hl|exact Hl']. intros k nm p p' g g' G G'. apply (IH k nm p p' g g' G G').
+    - rewrite to_field_union in H1, H2. cbn zeta in H1, H2.
+      rewrite <- (without_data_pointwise vs vs' Hlen Hnone (fun i nm t nm' t' G G' => teq_null_variant t t' (Hpt i nm t nm' t' G G'))) in H2.
+      rewrite <- Hlen in H2.
+      destruct (forallb _ vs && o_enums_str o); [injection H1 as <-; injection H2 as <-; repeat constructor|].
+      destruct (forallb _ vs && negb (o_allow_null o)); [discriminate|]. destruct (Nat.ltb 128 (length vs)); [discriminate|].
+      apply bind_ok in H1 as (l & Hl & H1). apply bind_ok in H2 as (l' & Hl' & H2). injection H1 as <-. injection H2 as <-.
+      constructor. apply sdeq_union. apply (tf_union_pointwise vs vs' path path' l l' Hlen Hnone Hnm); [|exact Hl|exact Hl'].
+      intros i nm t nm' t' G G' nm0 p p' g g' Hg Hg'. apply (IH i nm t nm' t' G G' nm0 p p' g g' Hg Hg').
   Qed.
 
   (* from_samples on nested data: the same samples in any order give the same schema up to the order of struct fields *)
@@ -108,6 +190,6 @@ Section Lift.
     pose proof (nested_order_independent o n 0 vs vs' r1 r2 Hh Hp T1 T2) as Hteq.
     pose proof (to_field_teq r1 r2 Hteq _ _ _ f1 f2 F1 F2) as Hs.
     destruct Hs as [name dt dt' nl st Hd]. cbn [sf_nullable sf_dt] in H1, H2. destruct nl; [discriminate|].
-    destruct Hd; try discriminate. injection H1 as <-. injection H2 as <-. constructor; assumption.
+    destruct Hd; try discriminate; injection H1 as <-; injection H2 as <-; first [apply sdeq_struct; assumption|apply sdeq_positional; assumption].
   Qed.
 End Lift.
